@@ -128,3 +128,11 @@ CHECKS["C11"] = dict(
           "operations (so the status text is git's own), `update --patch` runs with commit on; the trace spec reads the recorded porcelain lines itself and checks that a blocked update "
           "aborts before modifying anything, that untracked unrelated files never block, and that the bump commit holds only the version change of pattern files."),
     note=_NOTE, ref="DESIGN.md section 6, C11")
+CHECKS["C19"] = dict(
+    technique="TLA+ spec of config-file selection and init/show (BVConfig, MC_C19) model-checked with TLC + replay of every layout against the real `init --dry; init; show; init`",
+    text=("Design level: all 4^5 content-class layouts (absent, empty, unrelated, existing section) of the five config-capable files; the four commands as a machine over the abstract "
+          "file system; invariants DryWritesNothing, AppendOnlyOneFile, ShowReadsBack, SecondInitRefuses, ConfiguredFilePreferred and agreement with the declarative InitExpectation. "
+          "Conformance (spec -> code): every layout (with LF/CRLF/no-final-newline/commented content and subsets of README.md, README.rst, setup.py) is built and the four commands are "
+          "run in process; after each command all bytes are compared; the trace spec checks exit codes, the file written, the byte-prefix clause, the file init names, the version show "
+          "reads back and the refusal of the second init against InitExpectation(layout)."),
+    note=_NOTE, ref="DESIGN.md section 6, C19")
